@@ -20,7 +20,7 @@ import numpy as np
 
 PROP = "C13"
 LEVEL = "exploration"
-VARIANTS = ("omp", "serial", "asan", "tsan")
+VARIANTS = ("omp", "serial", "asan", "tsan", "dbg")
 CASE_TIMEOUT = 900
 CRASH_IS_VIOLATION = True
 CONTRACTS = True
@@ -71,13 +71,19 @@ def gen_cases(tier, seed):
     for nt in tsan_threads:
         for rep in range(reps):
             observers.append(("tsan", "tsan", nt, {"MINIGOMP_PERM_SEED": str(1000 * rep + nt + seed), "MINIGOMP_YIELD": str(3 * rep + 2)}))
+    if tier == "thorough":
+        # valgrind memcheck on the -O0 -g build for a reduced workload: the one thing ASan cannot see is a read of uninitialised memory
+        observers.append(("memcheck", "dbg", 1, {"VERIF_CMD_PREFIX": "\x1f".join(["valgrind", "--error-limit=no", "--num-callers=30", "--log-file={base}.vg.%p"]),
+                                                  "PYTHONMALLOC": "malloc"}))
     for obs_name, variant, threads, env in observers:
         for sub, i, c in base:
+            if obs_name == "memcheck" and (i > 0 or sub in ("c04", "c09", "c15")):
+                continue  # one case per sub-check is enough at valgrind's 20-50x cost
             if obs_name == "tsan" and sub in ("c04", "c05"):
                 continue  # no OpenMP region is reachable from these (measured: regions counter stays 0)
             cc = {k: v for k, v in c.items() if not k.startswith("_")}
             cases.append({"sub": sub, "idx": i, "case": cc, "observer": obs_name, "_variant": variant, "_threads": threads, "_env": dict(env, VERIF_OBSERVER=obs_name),
-                          "_cost": c.get("_cost", 1) * {"asan": 3, "tsan": 8, "guard": 2, "diff": 6, "serial": 1}[obs_name]})
+                          "_cost": c.get("_cost", 1) * {"asan": 3, "tsan": 8, "guard": 2, "diff": 6, "serial": 1, "memcheck": 40}[obs_name]})
     return cases
 
 
@@ -182,6 +188,35 @@ def process_obs():
     return out
 
 
+def post_shard(variant, extra_env, base):
+    """Parent-side parsing of valgrind logs (written when the worker exits)."""
+    if extra_env.get("VERIF_OBSERVER") != "memcheck":
+        return None
+    blocks, relevant = 0, []
+    for fn in glob.glob(base + ".vg.*"):
+        try:
+            txt = open(fn, errors="replace").read()
+        except OSError:
+            continue
+        for b in re.split(r"\n==\d+== \n", txt):
+            if not re.search(r"Invalid (read|write)|uninitialised|Mismatched free|Invalid free|definitely lost", b):
+                continue
+            blocks += 1
+            if re.search(r"\((phonopy|dynmat|derivative_dynmat|rgrid|tetrahedron_method)\.c:\d+\)|_phonopy\.cpp:\d+", b):
+                first = [ln for ln in b.splitlines() if ln.strip()][:1]
+                relevant.append({"kind": "memcheck_report", "msg": re.sub(r"==\d+== ", "", first[0]) if first else "valgrind report", "report": re.sub(r"==\d+== ", "", b)[:1800], "observer": "memcheck"})
+    out = {"memcheck_blocks_total": blocks, "memcheck_blocks_in_phonopy_c": len(relevant), "memcheck_logs": len(glob.glob(base + ".vg.*"))}
+    if relevant:
+        seen, uniq = set(), []
+        for r in relevant:
+            k = r["report"][:300]
+            if k not in seen:
+                seen.add(k)
+                uniq.append(r)
+        out["viol"] = uniq[:8]
+    return out
+
+
 def crash_policy(rec):
     """A TSan worker that dies with TSan's exit code but without any report touching phonopy's C code died of the tool's own
     runtime (seen sporadically, not reproducible on the same case): re-run that case instead of guessing a verdict."""
@@ -223,7 +258,7 @@ def summarize(results, obs, tier):
         inc.append("kernels never reached by the workload: %s" % missing)
     if few:
         inc.append("kernels reached with fewer than 3 distinct shape tuples: %s" % few)
-    for o in ("asan", "tsan", "guard", "diff", "serial"):
+    for o in ("asan", "tsan", "guard", "diff", "serial") + (("memcheck",) if tier == "thorough" else ()):
         if obs.get("cases_" + o, 0) == 0:
             inc.append("observer %s ran no case" % o)
     if (obs.get("minigomp") or {}).get("regions_multithreaded", 0) == 0:
@@ -234,5 +269,6 @@ def summarize(results, obs, tier):
         inc.append("guard-page re-homing never happened")
     extra = {"kernels_exported": exported, "kernel_calls": calls, "kernel_max_distinct_shapes": shapes, "tsan": {"blocks": obs.get("tsan_report_blocks", 0), "relevant": obs.get("tsan_relevant_blocks", 0),
                                                                                                      "minigomp": obs.get("minigomp"), "max_threads": obs.get("minigomp_max_threads")},
-             "differential_labels": obs.get("diff_labels")}
+             "differential_labels": obs.get("diff_labels"),
+             "memcheck": {"logs": obs.get("memcheck_logs", 0), "report_blocks_total": obs.get("memcheck_blocks_total", 0), "blocks_with_phonopy_c_frames": obs.get("memcheck_blocks_in_phonopy_c", 0)}}
     return extra, inc
